@@ -213,15 +213,6 @@ def expected_object(ci, desc, validate):
     return {("ok", x, y)} if ci.in_subgroup(x, y) else {"MalformedPointError"}
 
 
-def infinity_finding():
-    """id of an open known finding about INFINITY handed to from_public_point, if the coordinator has recorded one"""
-    for k in common.load_known():
-        if k.get("property") == "C08" and k.get("status") == "open" and "INFINITY" in (k.get("what", "") + str(k.get("matches", ""))) \
-                and "from_public_point" in (k.get("what", "") + str(k.get("matches", ""))):
-            return k["id"]
-    return None
-
-
 def check_object(ctx, ci, desc, validate):
     from ecdsa import VerifyingKey
     try:
@@ -237,12 +228,6 @@ def check_object(ctx, ci, desc, validate):
         return None
     rec = {"input": {"entry": "VerifyingKey.from_public_point", "curve": ci.name, "point_object": desc, "validate_point": validate},
            "observed": got if isinstance(got, str) else list(got), "expected": sorted(map(str, exp))}
-    if desc["object"] == "INFINITY" and got == "TypeError":
-        kid = infinity_finding()
-        if kid:
-            rec["known"] = kid
-        else:
-            rec["observation"] = True      # reported to the coordinator; not judged until it has a disposition
     return rec
 
 
@@ -281,8 +266,11 @@ def correspond(ctx):
         for ci in cis:
             cv, ct = ci.cv, K.curve_tok(ci.cv)
             for desc in point_objects(ctx, ci, cis):
-                if desc["object"] == "INFINITY":
-                    continue            # no coordinates: outside the model's interface (see the search)
+                if desc["object"] == "INFINITY":    # F14: `Keys.fromPublicPointObj … none`
+                    for v in (1, 0):
+                        c.add("vk_from_public_point %s inf inf %d -" % (ct, v),
+                              lambda: K.fmt_vk(VerifyingKey.from_public_point(EC.INFINITY, cv, validate_point=bool(v))), "object-INFINITY")
+                    continue
                 own = tuple(desc["point_curve"]) == (ci.p, ci.a, ci.b, ci.h)
                 if ci.h != 1 and not own:
                     continue            # the code multiplies a foreign object on its own curve
@@ -404,19 +392,14 @@ def search(ctx):
                 ctx.violation({"input": {"entry": "VerifyingKey.from_public_point", "curve": ci.name, "x": x, "y": y},
                                "observed": got, "expected": exp})
     # 1b. point objects of every kind, validation on and off
-    obs = 0
     for ci in cis:
         for desc in point_objects(ctx, ci, cis):
             for validate in (True, False):
                 n_eval += 1
                 ctx.hist("search.object", desc["object"] + "/" + desc["class"])
-                rec = check_object(ctx, ci, desc, validate)
-                if rec and rec.pop("observation", False):
-                    obs += 1
-                    ctx.hist("search.observation", "from_public_point(INFINITY) -> " + str(rec["observed"]))
-                elif rec:
+                rec = check_object(ctx, ci, desc, validate)      # INFINITY: the witness of the fixed finding F14
+                if rec:
                     ctx.violation(rec)
-    ctx.cov["observations_not_judged"] = {"from_public_point(INFINITY) raises TypeError instead of MalformedPointError": obs}
     # 2. toy curves: exhaustive truth table
     for t in K.TOYS:
         ci = K.toy_curve(*t)
@@ -482,7 +465,7 @@ def replay(rec):
     if i["entry"] == "VerifyingKey.from_public_point" and "point_object" in i:
         ci = next(x for x in cis if x.name == i["curve"])
         r = check_object(None, ci, i["point_object"], i["validate_point"])
-        return r is not None and not r.get("observation")
+        return r is not None
     if i["entry"] in ("VerifyingKey.from_der", "VerifyingKey.from_pem"):
         buf = bytes.fromhex(i["bytes"])
         exp, _ = expected_der(cis, buf)
